@@ -59,6 +59,26 @@ structure Opts where
   fc : Bool  -- field_constraints
   deriving DecidableEq, Repr, Inhabited
 
+/-- where the member's name is listed as required -/
+inductive Via where
+  | own       -- `required` of the object schema that declares the property
+  | sibling   -- `allOf: [ {properties: …}, {required: […]} ]`: a sibling item carrying only `required`
+  | owner     -- `allOf: [ {properties: …} ], required: […]`: on the schema that owns the `allOf`
+  deriving DecidableEq, Repr, Inhabited
+
+/-- what the member's JSON name looks like -/
+inductive NameKind where
+  | plain     -- `n`: usable as it is
+  | alias     -- `foo-bar`: not an identifier; Python name `foo_bar`, alias / key `foo-bar`
+  | keyword   -- `class`: Python name `class_`, alias / key `class`
+  | camel     -- `fooBar`: an identifier, renamed to `foo_bar` (alias `fooBar`) under `--snake-case-field`
+  deriving DecidableEq, Repr, Inhabited
+
+/-- names as abstract tokens -/
+inductive Tok where
+  | n | fooDashBar | foo_bar | classKw | class_ | fooBar
+  deriving DecidableEq, Repr, Inhabited
+
 structure Vec where
   kind : Kind
   nullsrc : NullSrc
@@ -67,7 +87,22 @@ structure Vec where
   ty : Ty
   constr : Bool
   opts : Opts
+  via : Via
+  name : NameKind
+  sc : Bool     -- snake_case_field
   deriving DecidableEq, Repr, Inhabited
+
+/-- the JSON name (`original_field_name`, what `required` lists contain) -/
+def NameKind.orig : NameKind → Tok
+  | .plain => .n | .alias => .fooDashBar | .keyword => .classKw | .camel => .fooBar
+
+/-- `model_resolver.get_valid_field_name_and_alias`: the Python member name -/
+def NameKind.py (sc : Bool) : NameKind → Tok
+  | .plain => .n | .alias => .foo_bar | .keyword => .class_
+  | .camel => if sc then .foo_bar else .fooBar
+
+/-- an alias is produced exactly when the name had to be changed -/
+def NameKind.hasAlias (sc : Bool) (k : NameKind) : Bool := k.py sc != k.orig
 
 def Dflt.given : Dflt → Bool
   | .none => false
@@ -104,7 +139,8 @@ def NullSrc.admitsNull : NullSrc → Bool
 constraint keyword exists for dict-typed members, and `use_annotated` requires `field_constraints`
 (`generate()` raises otherwise). -/
 def Vec.valid (v : Vec) : Bool :=
-  v.dflt.fits v.ty && !(v.constr && v.ty == .object) && !(v.opts.an && !v.opts.fc)
+  v.dflt.fits v.ty && !(v.constr && v.ty == .object) && !(v.opts.an && !v.opts.fc) &&
+  (v.via == .own || v.inreq)   -- the allOf forms are only built for a listed member
 
 /-! ## Stage 1 — `JsonSchemaParser.parse_object_fields` / `get_object_field`, `OpenAPIParser.get_data_type` -/
 
@@ -123,7 +159,26 @@ structure RVec where
   sd : Bool
   an : Bool
   fc : Bool
+  late : Bool      -- `required` became True only after the field object was built (allOf forms)
+  hasAlias : Bool  -- `field.alias is not None`
   deriving DecidableEq, Repr, Inhabited
+
+/-- the names listed as required, wherever the list is written (JSON names) -/
+def Vec.requiredNames (v : Vec) : List Tok := if v.inreq then [v.name.orig] else []
+
+/-- `field.original_name or field.name` — the key the allOf code looks a field up by;
+`original_name` is always set by `parse_object_fields` -/
+def Vec.lookupKey (v : Vec) : Tok := (some v.name.orig).getD (v.name.py v.sc)
+
+/-- Is the member listed? `parse_object_fields` tests `original_field_name in requires` (own list);
+`_parse_object_common_part` tests `(field.original_name or field.name) in required` for the names
+collected from allOf items without properties, and looks `obj.required` entries up in
+`{f.original_name or f.name: f}` for the schema owning the allOf. All three compare JSON names. -/
+def Vec.listed (v : Vec) : Bool :=
+  match v.via with
+  | .own => v.requiredNames.contains v.name.orig
+  | .sibling => v.requiredNames.contains v.lookupKey
+  | .owner => v.requiredNames.any (fun r => r == v.lookupKey)
 
 /-- `parse_object_fields`:
 ```
@@ -132,14 +187,22 @@ if self.force_optional_for_required_fields or (self.apply_default_values_for_req
 else:
     required = original_field_name in requires
 ``` -/
+def Vec.finalRequired (v : Vec) : Bool :=
+  -- every one of the three code paths skips the member under the same relaxation
+  if v.opts.fo || (v.opts.ud && v.dflt.given) then false else v.listed
+
 def Vec.reduce (v : Vec) : RVec :=
   { kind := v.kind, nullsrc := v.nullsrc
-    required := if v.opts.fo || (v.opts.ud && v.dflt.given) then false else v.inreq
+    required := v.finalRequired
     dflt := v.dflt, ty := v.ty, constr := v.constr
-    sn := v.opts.sn, sd := v.opts.sd, an := v.opts.an, fc := v.opts.fc }
+    sn := v.opts.sn, sd := v.opts.sd, an := v.opts.an, fc := v.opts.fc
+    -- in the allOf forms the item's own `required` list is empty when `get_object_field` runs;
+    -- `_parse_object_common_part` sets `field.required = True` afterwards
+    late := v.via != .own && v.finalRequired
+    hasAlias := v.name.hasAlias v.sc }
 
 def RVec.valid (v : RVec) : Bool :=
-  v.dflt.fits v.ty && !(v.constr && v.ty == .object) && !(v.an && !v.fc)
+  v.dflt.fits v.ty && !(v.constr && v.ty == .object) && !(v.an && !v.fc) && !(v.late && !v.required)
 
 /-- state of `field.constraints` -/
 inductive Cons where
@@ -157,6 +220,7 @@ structure FieldRec where
   stripDefaultNone : Bool
   dataTypeIsOptional : Bool
   useAnnotated : Bool
+  hasAlias : Bool
   constraints : Cons
   ty : Ty
   deriving DecidableEq, Repr, Inhabited
@@ -198,13 +262,15 @@ def fromReduced (v : RVec) : FieldRec :=
   let hasDefault := v.dflt.given
   { required := v.required
     -- nullable=field.nullable if self.strict_nullable and (field.has_default or required) else None
-    nullable := if v.sn && (hasDefault || v.required) then some (schemaNullableFlag v) else none
+    -- (`required` as it is when the field object is built: still False in the allOf forms)
+    nullable := if v.sn && (hasDefault || (v.required && !v.late)) then some (schemaNullableFlag v) else none
     hasDefault := hasDefault
     dflt := v.dflt
     typeHasNull := typeListHasNull v
     stripDefaultNone := v.sd
     dataTypeIsOptional := dataTypeIsOptional v
     useAnnotated := v.an
+    hasAlias := v.hasAlias
     constraints := constraintsOf v
     ty := v.ty }
 
@@ -241,6 +307,7 @@ inductive Asg where
   | fieldDflt (d : DV)   -- `= Field(<repr(default)>, …)` or, under use_default_kwarg, `= Field(default=<repr(default)>, …)`
   | fieldNoDefault       -- `= Field(<keywords only>)`
   | factory (d : DV)     -- `= field(default_factory=lambda :<repr(default)>)`
+  | msField (d : Option DV)  -- msgspec `= field(name='…')` / `= field(name='…', default=<repr(default)>)`
   deriving DecidableEq, Repr, Inhabited
 
 inductive Ann where
@@ -265,10 +332,10 @@ inductive PStr where
   | dflt           -- "Field(<default>, k=v, …)"
   deriving DecidableEq, Repr
 
-/-- pydantic (v1 and v2) `DataModelField.__str__`: `data` holds only constraint keywords here
-(no alias, no extras); `default_factory` is `None` for the member types of the space. -/
+/-- pydantic (v1 and v2) `DataModelField.__str__`: `data` holds the alias and the constraint
+keywords (no extras); `default_factory` is `None` for the member types of the space. -/
 def pydStr (f : FieldRec) : PStr :=
-  let hasArgs := f.constraints == .keyword
+  let hasArgs := f.constraints == .keyword || f.hasAlias
   if !hasArgs then
     (if f.nullable == some true && f.required then .ellipsisOnly else .empty)
   else if f.useAnnotated then .argsOnly
@@ -301,7 +368,9 @@ def dcFieldAsg (f : FieldRec) : Option Asg :=
 /-- msgspec `DataModelField.__str__` / `field`: `data["default"]` is the default, or `None` for a
 non-required member; dropped again when required -/
 def msFieldAsg (f : FieldRec) : Option Asg :=
-  if f.required then none else some (.lit f.dflt)
+  -- `data["name"] = alias`; one-key `{"default": …}` is written as a bare literal, anything else as `field(…)`
+  if f.hasAlias then some (.msField (if f.required then none else some f.dflt))
+  else if f.required then none else some (.lit f.dflt)
 
 /-- msgspec `annotated`: `Meta(…)` only takes keys of `_META_FIELD_KEYS` — `max_items`/`min_items`
 are not among them, so only scalar constraints produce an `Annotated[…]` -/
@@ -493,7 +562,7 @@ structure Sem where
 
 /-- the default carried by an assignment, if any -/
 def Asg.default? : Asg → Option DV
-  | .lit d | .fieldDflt d | .factory d => some d
+  | .lit d | .fieldDflt d | .factory d | .msField (some d) => some d
   | _ => Option.none
 
 def semOf (k : Kind) (s : Shape) : Sem :=
@@ -526,8 +595,8 @@ def semOf (k : Kind) (s : Shape) : Sem :=
     -- msgspec (authored from its documentation; not installed here): empty list/dict literals are
     -- copied per instance, non-empty mutable literals are refused when the Struct is created
     match s.asg with
-    | .none => ⟨true, true, s.opt, .rejected, false⟩
-    | .lit d => ⟨!d.isNonEmptyMutable, false, s.opt, .value d, false⟩
+    | .none | .msField none => ⟨true, true, s.opt, .rejected, false⟩
+    | .lit d | .msField (some d) => ⟨!d.isNonEmptyMutable, false, s.opt, .value d, false⟩
     | a => match a.default? with
       | some d => ⟨true, false, s.opt, .value d, false⟩
       | none => ⟨false, false, s.opt, .rejected, false⟩
@@ -563,8 +632,8 @@ kernel `decide` never descends into pruned sub-spaces. -/
 def AllR (g : Bool → Dflt → NullSrc → Bool) (p : RVec → Prop) : Prop :=
   ∀ (r : Bool) (d : Dflt) (n : NullSrc), g r d n = true →
   ∀ (t : Ty), d.fits t = true → ∀ (c : Bool), (c && t == .object) = false →
-  ∀ (an fc : Bool), (an && !fc) = false →
-  ∀ (k : Kind) (sn sd : Bool), p ⟨k, n, r, d, t, c, sn, sd, an, fc⟩
+  ∀ (an fc : Bool), (an && !fc) = false → ∀ (late : Bool), (late && !r) = false →
+  ∀ (k : Kind) (sn sd al : Bool), p ⟨k, n, r, d, t, c, sn, sd, an, fc, late, al⟩
 
 instance {g} {p : RVec → Prop} [DecidablePred p] : Decidable (AllR g p) := by
   unfold AllR; exact inferInstance
@@ -572,10 +641,15 @@ instance {g} {p : RVec → Prop} [DecidablePred p] : Decidable (AllR g p) := by
 theorem allR {g} {p : RVec → Prop} (h : AllR g p) :
     ∀ v : RVec, v.valid = true → g v.required v.dflt v.nullsrc = true → p v := by
   intro v hv hg
-  obtain ⟨k, n, r, d, t, c, sn, sd, an, fc⟩ := v
+  obtain ⟨k, n, r, d, t, c, sn, sd, an, fc, late, al⟩ := v
   simp only [RVec.valid, Bool.and_eq_true, Bool.not_eq_true'] at hv
-  exact h r d n hg t hv.1.1 c hv.1.2 an fc hv.2 k sn sd
+  exact h r d n hg t hv.1.1.1 c hv.1.1.2 an fc hv.1.2 late hv.2 k sn sd al
 
-theorem Vec.valid_reduce (v : Vec) : v.reduce.valid = v.valid := rfl
+/-- a valid vector reduces to a valid reduced vector -/
+theorem Vec.valid_reduce (v : Vec) (hv : v.valid = true) : v.reduce.valid = true := by
+  simp only [Vec.valid, Bool.and_eq_true] at hv
+  simp only [RVec.valid, Vec.reduce, Bool.and_eq_true]
+  refine ⟨⟨⟨hv.1.1.1, hv.1.1.2⟩, hv.1.2⟩, ?_⟩
+  cases v.finalRequired <;> simp
 
 end Dcg.Model.Field
